@@ -7,10 +7,7 @@ Proof. reflexivity. Qed.
 
 Lemma agree_nonneg t : agree t -> 0 <= fst (nl t) /\ 0 <= snd (nl t).
 Proof.
-  unfold agree, fagree. destruct (nl t) as [s a], (cl t) as [s' a']. cbn [fst snd].
-  intros (_ & Hs & Hpos & Hzero). split; [exact Hs|].
-  destruct (Z.eq_dec s 0) as [E|E]; [destruct (Hzero E) as (-> & _); lia|].
-  destruct (Hpos ltac:(lia)) as (-> & Hp). pose proof (p2_pos _ Hp). lia.
+  unfold agree, fagree. intros (E & Hs & Hp). rewrite E. pose proof (p2_pos _ Hp). lia.
 Qed.
 
 (* the field loop: every field lies inside [start offset, final offset) *)
@@ -100,7 +97,7 @@ Proof.
 Qed.
 
 (* non-vacuity *)
-Example ex_wf : wfb (TRec [TPrim 7; TArr (TPrim 4) 3; TRec [TPrim 3] true (Some 16)] false None) = true.
+Example ex_wf : wfb (TRec [TPrim 7; TArr (TPrim 4) 3; TRec [TPrim 3] true (Some 16); TRec [TArr (TPrim 4) 0] false None] false None) = true.
 Proof. reflexivity. Qed.
 Example ex_acc : eq_accesses 0 (TRec [TPrim 3; TArr (TPrim 4) 3] false None) = [(8, 24)].
 Proof. reflexivity. Qed.
